@@ -22,7 +22,9 @@ ANON = [  # names carried by an anonymous window: direct resources, and (after '
     ((("b", "a"),), (("a", "b", "0"),)), ((("a", "0"),), ((0, 1),)), ((), (("b",), ("a", "b", 0))),
     (((1,), ("0", "a")), ()), ((("a", "b", "0"), ("a", "b", 0)), ()),
 ]
-BAD = [(), ("",), (-1,), ("a", ""), 5, None, ("a", 1.5)]
+# anonymous windows that carry a NAMED sub-window (its name is absorbed; the names inside it are not)
+ANON_NAMED = [(("b",), ("a",)), (("a", 0), ("a", 0)), ((1,), ("b", "a"))]      # (sub-window name, resource name inside it)
+BAD = [(), ("",), (-1,), ("a", ""), None, ("a", 1.5)]      # not names at all (empty, empty part, negative, wrong type)
 
 
 def letters(tier):
@@ -32,6 +34,9 @@ def letters(tier):
     L += [("win_oob", NAMES[0]), ("win_oob", NAMES[3]), ("anon_oob", 0), ("anon_oob", 4), ("anon_oob", 5),
           ("win_ratio", NAMES[5]), ("anon_ratio", 2)]
     L += [("bad_res", i) for i in range(len(BAD))] + [("bad_win", 0), ("bad_win", 2)]
+    # named windows whose INNER names equal / extend names that may be visible in the root: always legal
+    L += [("win_inner", ("b", "a"), ("a",)), ("win_inner", (0, 1), (0,)), ("win_inner", ("a", "b"), ("a", "b", "0"))]
+    L += [("anon_named", i) for i in range(len(ANON_NAMED))]
     return L
 
 
@@ -121,8 +126,24 @@ def execute(history, parent_key):
                 newnames = set(direct) | set(inner)
                 exp_ok = not any(conflicts(n, visible) for n in newnames)
                 root.add_window(w)
+            elif kind == "win_inner":
+                nm, inner = op[1], op[2]
+                exp_ok = not conflicts(nm, visible)
+                newnames = {nm}
+                w = MemoryMap(addr_width=1, data_width=8)
+                w.add_resource(res(), name=inner, size=1)
+                root.add_window(w, name=nm)
+            elif kind == "anon_named":
+                subname, inner = ANON_NAMED[op[1]]
+                c = MemoryMap(addr_width=1, data_width=8)
+                c.add_resource(res(), name=inner, size=1)
+                w = MemoryMap(addr_width=2, data_width=8)
+                w.add_window(c, name=subname)
+                newnames = {subname}
+                exp_ok = not conflicts(subname, visible)
+                root.add_window(w)
             elif kind in ("win_oob", "win_ratio"):
-                exp_ok = False
+                exp_ok = False if kind == "win_oob" else None      # inadmissible dense ratio: either (as in C02)
                 newnames = {op[1]}
                 if kind == "win_oob":
                     w = MemoryMap(addr_width=1, data_width=8)
@@ -133,7 +154,7 @@ def execute(history, parent_key):
                     w.add_resource(res(), name="x", size=1)
                     root.add_window(w, name=op[1], sparse=False)
             elif kind in ("anon_oob", "anon_ratio"):
-                exp_ok = False
+                exp_ok = False if kind == "anon_oob" else None
                 direct, inner = ANON[op[1]]
                 newnames = set(direct) | set(inner)
                 w = MemoryMap(addr_width=3, data_width=8 if kind == "anon_oob" else 4)
@@ -160,9 +181,16 @@ def execute(history, parent_key):
             raised = e
             if last:
                 err = dict(msg=f"{op}: {type(e).__name__}: {e}", signature=dict(kind="oracle", what="internal_error"))
-        if exp_ok and raised is None:
+        if exp_ok is None:
+            # outcome not fixed by the property: accepted only if the names were available, and then they are visible
+            if raised is None:
+                if any(conflicts(n, visible) for n in newnames) and last:
+                    err = dict(msg=f"{op}: accepted although one of its names conflicts; visible={sorted(map(str, visible))}",
+                               signature=dict(kind="oracle", what="conflict_accepted"))
+                visible |= newnames
+        elif exp_ok and raised is None:
             visible |= newnames
-        if last and err is None:
+        if last and err is None and exp_ok is not None:
             if exp_ok and raised is not None:
                 err = dict(msg=f"{op}: a legal name was refused ({type(raised).__name__}: {str(raised)[:120]}); visible={sorted(map(str, visible))}",
                            signature=dict(kind="oracle", what="legal_refused"))
@@ -212,7 +240,9 @@ def digest():
 
 
 def replay(data):
-    hist = tuple((op[0], tuple(op[1]) if isinstance(op[1], (list, tuple)) else op[1]) for op in data["history"])
+    def tup(x):
+        return tuple(tup(y) for y in x) if isinstance(x, list) else x
+    hist = tuple(tup(op) for op in data["history"])
     parent, _ = execute(hist[:-1], None)
     _, err = execute(hist, parent)
     return err, len(hist)
